@@ -1,25 +1,60 @@
-(* C18 — No command crashes or hangs on any state Goit can produce (model half).
-   Part 1: a refused command that emitted nothing left the repository
-   unchanged, for every command value and every world.  Part 2 (no panicking
-   site; per-command refusal theorems; fuel lemmas) is appended when
-   TotalFacts.v is built. *)
+(* C18 — No command crashes or hangs on any state Goit can produce (model half). *)
 From Coq Require Import Strings.String Strings.Byte.
 From Coq Require Import List NArith.
-From Goit Require Import Bytes World Repo MonadFacts.
+From Goit Require Import Bytes Tree Index Config World Repo MonadFacts BranchFacts TotalFacts.
 Import ListNotations.
 
-Theorem C18_refused_without_effect_unchanged : forall e c w w' tr,
-  step (ACmd e c) w = (w', OErr, tr) -> tr = [] -> w' = w.
-Proof.
-  intros e c w w' tr Hs Ht. pose proof (step_trace _ _ _ _ _ Hs) as H. cbn in H. subst. reflexivity.
-Qed.
+(* T1: for EVERY world and EVERY command value the model never reaches a
+   panicking site (after the repairs there is none left) *)
+Theorem C18_no_panic : forall a w, snd (fst (step a w)) <> OPanic.
+Proof. exact no_panic. Qed.
 
-(* every state a command passes through is its effects applied in order: there
-   is no other way a command changes the disk *)
-Theorem C18_effects_are_everything : forall a w w' o tr,
-  step a w = (w', o, tr) ->
-  match a with ACmd _ _ => w' = apply_effects tr w | AEdit _ => tr = [] end.
-Proof. exact step_trace. Qed.
+(* T2: a refused command that wrote nothing left the repository unchanged *)
+Theorem C18_refused_without_effect_unchanged : forall a w w' tr,
+  step a w = (w', OErr, tr) -> tr = [] -> w' = w.
+Proof. exact refused_unchanged_generic. Qed.
 
+(* T2 per command: invalid arguments are refused before anything is written *)
+Theorem C18_not_initialised : forall e c w, c <> CInit -> w_inited w = false -> step (ACmd e c) w = (w, OErr, []).
+Proof. exact not_inited_refused. Qed.
+Theorem C18_add_unknown_path : forall e w x args a,
+  w_inited w = true -> loaded w x -> In a args -> exists_on_disk w a = false -> tracked w a = false ->
+  step (ACmd e (CAdd args)) w = (w, OErr, []).
+Proof. exact add_missing_refused. Qed.
+Theorem C18_rm_unknown_path : forall e w x args a,
+  w_inited w = true -> loaded w x -> In a args -> tracked w a = false -> is_dir (idx_of w) a = false ->
+  step (ACmd e (CRm args)) w = (w, OErr, []).
+Proof. exact rm_unknown_refused. Qed.
+Theorem C18_restore_unknown_path : forall e w x args a,
+  w_inited w = true -> loaded w x -> In a args -> restore_targets w false [] a = [] ->
+  step (ACmd e (CRestore false args)) w = (w, OErr, []).
+Proof. exact restore_unknown_refused. Qed.
+Theorem C18_reset_bad_request : forall e w x soft mixed hard args,
+  w_inited w = true -> loaded w x ->
+  reset_flags_ok soft mixed hard = false \/ reset_target w args = None ->
+  step (ACmd e (CReset soft mixed hard args)) w = (w, OErr, []).
+Proof. exact reset_refused. Qed.
+Theorem C18_commit_without_identity : forall e w x msg,
+  w_inited w = true -> loaded w x -> user_set (x_l x) (x_g x) = false ->
+  step (ACmd e (CCommit msg)) w = (w, OErr, []).
+Proof. exact commit_no_identity_refused. Qed.
+Theorem C18_branch_family_refusals : forall h e c w' tr,
+  branch_family c -> refs_commits_ok (run h w_empty) ->
+  step (ACmd e c) (run h w_empty) = (w', OErr, tr) -> tr = [] /\ w' = run h w_empty.
+Proof. exact refused_branch_ops_unchanged_reachable. Qed.
+
+(* T3: the hand-written binary search never runs out of fuel, on any list *)
+Theorem C18_binary_search_terminates : forall es p k,
+  es <> [] -> bsearch (S (length es) + k) es p 0 (length es) = get_entry es p.
+Proof. exact get_entry_fuel. Qed.
+
+Print Assumptions C18_no_panic.
 Print Assumptions C18_refused_without_effect_unchanged.
-Print Assumptions C18_effects_are_everything.
+Print Assumptions C18_not_initialised.
+Print Assumptions C18_add_unknown_path.
+Print Assumptions C18_rm_unknown_path.
+Print Assumptions C18_restore_unknown_path.
+Print Assumptions C18_reset_bad_request.
+Print Assumptions C18_commit_without_identity.
+Print Assumptions C18_branch_family_refusals.
+Print Assumptions C18_binary_search_terminates.
